@@ -3,6 +3,7 @@ import math, re, struct
 from fractions import Fraction
 from . import execsuite, suite
 from .propbase import *
+from . import basesuites
 
 WORDS = ["a", "an", "ice", "cold", "sweet", "dreams", "wildest", "daydream", "lovestruck", "ladykiller", "rock'n'roll", "o'clock",
          "nothing's", "we're", "it's", "mañana", "über", "crazy", "x", "antidisestablishmentarianism", "supercalifragilistic",
@@ -45,6 +46,7 @@ def ulps_apart(x, f):
 
 def run(chk):
     proved = setup(chk, "C11")
+    basesuites.run_f64(chk, 1500 if chk.tier == "quick" else 20000)
     rng = rng_for(chk, 11)
     quick = chk.tier == "quick"
     cases, metas = [], []
